@@ -165,7 +165,7 @@ theorem save_step_total (c : Cfg) (r : Result) (h : runForever c = some r) (hb :
   unfold runForever at h
   simp only [hb, Bool.false_eq_true, if_false] at h
   unfold finish at h
-  simp only [consumePending, Bool.false_and, Bool.false_eq_true, if_false] at h
+  simp only [consumePending, second_any_false, Bool.or_false, Bool.false_and, Bool.false_eq_true, if_false] at h
   split at h
   · simp at h
   · simp only [Option.some.injEq] at h
@@ -191,7 +191,7 @@ theorem storage_fault_irrelevant (c : Cfg) (r : Result) (h : runForever c = some
     simp only [hb, Bool.false_eq_true, if_false] at h ⊢
     rw [hp]
     unfold finish at h ⊢
-    simp only [consumePending, Bool.false_and, Bool.false_eq_true, if_false] at h ⊢
+    simp only [consumePending, second_any_false, Bool.or_false, Bool.false_and, Bool.false_eq_true, if_false] at h ⊢
     split at h
     · simp at h
     · next hperm =>
@@ -219,7 +219,7 @@ theorem helper_lives_no_longer_than_call (c : Cfg) (r : Result) (h : runForever 
   | false =>
     simp only [hb, Bool.false_eq_true, if_false] at h
     unfold finish at h
-    simp only [consumePending, Bool.false_and, Bool.false_eq_true, if_false] at h
+    simp only [consumePending, second_any_false, Bool.or_false, Bool.false_and, Bool.false_eq_true, if_false] at h
     split at h
     · simp at h
     · simp only [Option.some.injEq] at h
